@@ -711,6 +711,9 @@ func (w *world) start() {
 func (w *world) connCount() int {
 	rep, err := w.child.Command("conncount " + nsName)
 	if err != nil {
+		for d := time.Now().Add(3 * time.Second); w.child.Alive() && time.Now().Before(d); {
+			time.Sleep(2 * time.Millisecond)
+		}
 		if !w.child.Alive() {
 			return -1
 		}
@@ -812,6 +815,13 @@ func main() {
 			}
 		}
 	}
+	// diedSoon: something just failed on another session; is the process on its way down?
+	diedSoon := func() bool {
+		for d := time.Now().Add(3 * time.Second); w.child.Alive() && time.Now().Before(d); {
+			time.Sleep(2 * time.Millisecond)
+		}
+		return !w.child.Alive()
+	}
 	longSettle := false
 	var lastCase *Case   // the case judged by the previous runOne (child alive at its end)
 	var lateCrash []Case // cases after whose verdict the child was found dead
@@ -854,7 +864,7 @@ func main() {
 			return "engine", res, res.detail
 		}
 		if err := selectOne(h); err != nil {
-			if !w.child.Alive() {
+			if diedSoon() {
 				return "crash", res, w.child.ExitState() + "\n" + w.child.Stderr()
 			}
 			return "other_session_affected", res, err.Error()
@@ -867,7 +877,7 @@ func main() {
 		// ... and a session opened afterwards works too
 		h2, err := healthy(w.child.Addr)
 		if err != nil {
-			if !w.child.Alive() {
+			if diedSoon() {
 				return "crash", res, w.child.ExitState() + "\n" + w.child.Stderr()
 			}
 			return "other_session_affected", res, "new session after the case: " + err.Error()
@@ -875,6 +885,9 @@ func main() {
 		err = selectOne(h2)
 		h2.Close()
 		if err != nil {
+			if diedSoon() {
+				return "crash", res, w.child.ExitState() + "\n" + w.child.Stderr()
+			}
 			return "other_session_affected", res, "new session after the case: " + err.Error()
 		}
 		cc := c
